@@ -221,6 +221,7 @@ def main(argv=None):
     violations = []       # new, reproduced
     known_hits = {}
     unreproduced = []
+    downgraded = []
     os.makedirs(REPLAY_DIR, exist_ok=True)
     by_key = {}
     for r, f in failures:
@@ -230,6 +231,11 @@ def main(argv=None):
         rep = [(r, f) for r, f in lst if f['reproduced']]
         if not rep:
             r, f = lst[0]
+            dg = getattr(mod, 'downgrade_unreproduced', None)
+            if dg is not None and dg(r['cfg'], f['name']):
+                downgraded.append(f"{r['label']}: {f['name']}: refuted by the solver but the concrete replay shows no "
+                                  f"violation of the property itself ({f['replay_note']})")
+                continue
             unreproduced.append(f"{r['label']}: {f['name']}: solver model did not reproduce ({f['replay_note']})")
             continue
         r, f = rep[0]
@@ -287,6 +293,7 @@ def main(argv=None):
                                'wall_s': r.get('wall_s')} for r in results][:400],
         'known_findings_hit': [{'key': k, 'what': e['what'], 'paths': n} for k, (e, n) in known_hits.items()],
         'violations_detail': violations,
+        'refuted_but_not_a_property_violation': downgraded[:10],
         'harness_errors': (errors + inconclusive + canary_fail + unreproduced)[:20],
     }
     extra = getattr(mod, 'evidence_extra', None)
@@ -319,6 +326,8 @@ def main(argv=None):
     for v in violations:
         print(f"  refuted: {v['obligation']} in {v['config']}: {v['claim']}" + (f" -- {v['detail']}" if v['detail'] else ''))
         print(f"VIOLATION property={pid} replay={v['replay']}")
+    for e in downgraded[:5]:
+        print(f"NOTE: {e}")
     for e in (errors + inconclusive + canary_fail + unreproduced)[:20]:
         print(f"HARNESS-ERROR/INCONCLUSIVE: {e}")
     if violations:
